@@ -11,6 +11,8 @@ RULE = ("pairs of requirement strings (A, B) per system (Default, NPM, Cargo, Go
         "||-alternatives) and the shared points are always probed; ~20 probe versions "
         "per pair = every bound of A and B, its predecessor/successor in each component, its prerelease neighbours, random "
         "versions; a second pass adds every bound of the spans Go holds for A, B and the four results (∞ written as 2^63-2 and 2^63-1) with neighbours; "
+        "8% of the pairs have operands that match nothing, in one or both positions (two exact versions, <0, >*, reversed or collapsed intervals, {<empty>}, and computed ones: the intersection of two empties or of two disjoint intervals, the union of two empties), for which Empty() of the results is required and a Go panic is a violation; "
+        "30% of the alphabetic prerelease labels are in upper or mixed case (every system), probed as written, in the other case forms and with a label ordered between the two; "
         "30% of the Go/Cargo operands (8% elsewhere) are set texts {[a:b),(c:d],e} read by ParseSetConstraint (1-4 ordered spans); the ||-alternatives of A and of B are also given in another order. "
         "Go computes A, B, A∪B, A∩B, B∪A, B∩A, A∪A, A∩A (fresh operands each time), Empty flags, membership of every probe "
         "under MatchVersion and under prerelease-inclusive matching (hook), the public route ParseSetConstraint(result.String()).MatchVersionPrerelease on the four results "
@@ -91,7 +93,15 @@ def gen_cases(ctx):
     for k in range(n):
         sysi = SYSTEMS[k % 4]
         noise = 0.3 if rng.random() < 0.05 else 0.0
-        if sysi != 2 and rng.random() < 0.3:
+        if rng.random() < 0.08:
+            # operands that match nothing: both, or one in either position; spelled directly
+            # (two exact versions, <0, >*, reversed, {<empty>}) or computed (the intersection of two
+            # empties or of two disjoint intervals, the union of two empties)
+            mode = rng.random()
+            a = reqtext.empty_operand(rng, sysi) if mode < 0.8 else reqtext.requirement(rng, sysi)
+            b = reqtext.empty_operand(rng, sysi) if (mode < 0.6 or mode >= 0.8) else reqtext.requirement(rng, sysi)
+            probes = reqtext.probes(rng, sysi, [a, b])
+        elif sysi != 2 and rng.random() < 0.3:
             # operands that share an end point, every open/closed combination; the shared
             # points are always probed
             a, b, pts = reqtext.shared_endpoint_pair(rng, sysi)
@@ -173,9 +183,23 @@ def oracle(ctx, cases, impl_lines):
         name = NAMES[c["sys"]]
         if not line.startswith('("ok"'):
             ctx.count("pair:%s:%s" % (name, "panic" if "panic" in line else "rejected"))
+            if line.startswith('("panic"'):
+                # parsing, Union, Intersect and matching never panic on operands that were accepted
+                hits.append(Hit(idx, "Go panics while computing with the two operands: " + line[:300], None, "panic", "a result or an error", "panic"))
             continue
         r = parse_sx(line)
         A, B, U, I, U2, I2 = [cdump.SetInfo(x) for x in r[1:7]]
+        if A.empty and B.empty:
+            ctx.count("both operands empty")
+        elif A.empty or B.empty:
+            ctx.count("one operand empty")
+        # Empty(): the union is empty exactly when both operands are; the intersection with an empty set is empty
+        for nm, X, slot in (("A∪B", U, "u"), ("B∪A", U2, "u")):
+            if X.ok and X.empty != (A.empty and B.empty):
+                hits.append(Hit(idx, "Empty(%s) is %s although Empty(A) is %s and Empty(B) is %s" % (nm, X.empty, A.empty, B.empty), None, X.empty, A.empty and B.empty, slot))
+        for nm, X, slot in (("A∩B", I, "i"), ("B∩A", I2, "i")):
+            if X.ok and (A.empty or B.empty) and not X.empty:
+                hits.append(Hit(idx, "Empty(%s) is false although an operand is Empty" % nm, None, False, True, slot))
         rows = r[7]
         AU, AI = cdump.SetInfo(r[9]), cdump.SetInfo(r[10])
         parsed[idx] = (A, B, U, I, U2, I2, rows)
@@ -313,7 +337,7 @@ def classify(ctx, tables, cases, impl_lines, model_lines, hits, parsed):
     for h in hits:
         c = cases[h.idx]
         inp = {"system": NAMES[c["sys"]], "A": c["a"], "B": c["b"], "version": h.probe}
-        if not same[h.idx]:
+        if not same[h.idx] or h.slot == "panic":
             ctx.violation(h.what, inp, h.observed, h.required)
             continue
         # a hit inside the region of a _partial theorem contradicts the theorem: the model (about
